@@ -8,6 +8,7 @@ package comet
 
 import (
 	"fmt"
+	"math"
 	"sort"
 	"testing"
 
@@ -310,8 +311,17 @@ func vfC13Run(c vfC13Case, ctx *vfCtx) *vfViolation {
 			st := vfIVFStored(idx, id)
 			own := dist.Calculate(st, now[li])
 			for ci := range now {
-				if d := dist.Calculate(st, now[ci]); d < own {
+				d := dist.Calculate(st, now[ci])
+				if d < own {
 					return vfFail("%s: id %d sits in cluster %d (centroid distance %v) but centroid %d is nearer (%v)", when, id, li, own, ci, d)
+				}
+				// "nearest" is meant under the index's metric: the number the index ranks centroids by has
+				// to BE that metric's distance between the vector and the centroid (float64 reference)
+				if vfIsZero(now[ci]) && kind == Cosine {
+					continue // no direction, no cosine distance
+				}
+				if want, tol := vfOracleDist(kind, m.live[id], now[ci]); math.Abs(float64(d)-want) > 4*tol+1e-6*math.Abs(want) {
+					return vfFail("%s: the index ranks centroid %d at %v for vector %d, but their %s distance is %v (centroid %v, vector %v)", when, ci, d, id, kind, want, now[ci], m.live[id])
 				}
 			}
 		}
